@@ -319,10 +319,38 @@ func propJanitor(c *Case) {
 				var buf bytes.Buffer
 
 				_, derr := src.Dump(&buf)
+
+				// now and then the dump is cut short inside its last records: Restore fails, what it had decoded
+				// by then stays (and is subject to the cleanup rules like everything else)
+				truncated := c.Weighted("truncated-dump", 3, 1) == 1
+				if truncated && buf.Len() > 2 {
+					cut := c.Int("cut-bytes", 1, 60)
+					if cut >= buf.Len() {
+						cut = buf.Len() - 1
+					}
+
+					buf.Truncate(buf.Len() - cut)
+					c.Class("restore-of-a-truncated-dump")
+				}
+
 				_, rerr := be.Restore(&buf)
-				c.Assert(derr == nil && rerr == nil, "dump-restore-error", "Dump/Restore = %v / %v", derr, rerr)
+				c.Assert(derr == nil && (rerr == nil || truncated), "dump-restore-error", "Dump/Restore = %v / %v", derr, rerr)
+
+				arrived := map[string]string{}
+
+				if truncated {
+					_, _ = be.Walk(func(k []byte, v interface{}, _ time.Time) error {
+						arrived[string(k)] = gstr(v)
+
+						return nil
+					})
+				}
 
 				for _, r := range rs {
+					if truncated && arrived[string(r.k)] != r.v {
+						continue
+					}
+
 					e := d.ref.write(now, r.k, r.v, r.ttl)
 					e.e, e.lo, e.hi, e.settled = now.Add(r.ttl).UnixNano(), 0, 0, true // the source's expiry, no jitter there
 					writtenAt[string(r.k)] = now.UnixNano()
